@@ -39,6 +39,12 @@ class ExpSym(AbstractValue):
         r.F = self.F
         return r
 
+    def v_getattr(self, name, it):
+        if name == "inv":
+            # x.inv() = x^(−1): what `/` dispatches to
+            return lambda: self._mk(-self.e, None if self.coef is None else self.F.inv(self.coef))
+        raise AnalysisError(f"attribute {name} of a formal power")
+
     def v_binop(self, op, other, reflected, it):
         if op == "pow" and not reflected and isinstance(other, int):
             return self._mk(self.e * other, None if self.coef is None else self.F.pow(self.coef, other))
